@@ -271,7 +271,16 @@ func zeta_imp(s, sc float64) float64 {
     if math.Floor(sc/2.0) == sc/2.0 {
       result = 0.0
     } else {
-      if s > float64(MaxFactorial) {
+      if s > float64(MaxFactorial) && s < 2.0*float64(MaxFactorial) {
+        // Gamma(s) overflows, but the product (2 pi)^(-s) Gamma(s) need not:
+        // split it in two factors of similar size with the duplication formula
+        //   Gamma(s) = 2^(s-1) Gamma(s/2) Gamma(s/2 + 1/2) / sqrt(pi)
+        // (the logarithmic form below loses log(result) digits)
+        h := 0.5*s
+        result  = SinPi(0.5*sc) * zeta_imp(s, sc)
+        result *= math.Gamma(h    ) * math.Pow(math.Pi, -h)
+        result *= math.Gamma(h+0.5) * math.Pow(math.Pi, -h) / math.SqrtPi
+      } else if s > float64(MaxFactorial) {
         mult   := SinPi(0.5*sc)*2.0*zeta_imp(s, sc)
         v, _   := math.Lgamma(s)
         result  = v
